@@ -154,6 +154,14 @@ func checkC10() fw.Check {
 				id := fmt.Sprintf("C10/cancel/%s", v.Name)
 				cases = append(cases, fw.Case{ID: id, Bubble: true, Run: func(c *fw.Ctx) { runC10CancelCase(c, id, v, tier == "thorough") }})
 			}
+			// a variant asked to do what it cannot: the TCP entry points with an IPv6 target (the tuple filter and the packet
+			// builder are IPv4 only). Whatever point the refusal comes from, it is a failure path like any other: error, no
+			// result, every handle that was opened is closed once
+			for _, vn := range []string{"syn", "synP", "sackR"} {
+				vn := vn
+				id := "C10/unsupported-family/" + vn
+				cases = append(cases, fw.Case{ID: id, Bubble: true, Run: func(c *fw.Ctx) { runC10WrongFamily(c, id, refmatch.VariantByName(vn)) }})
+			}
 			// request level: the same fault classes hitting ONE participant (a path run or an end-to-end probe) of a
 			// RunTraceroute request: the request returns an error wrapping the cause and no result, every handle of
 			// every participant is closed exactly once
@@ -214,6 +222,51 @@ func runC10Request(c *fw.Ctx, id, proto, op string, j int) {
 	case !errors.Is(rerr, errInjected):
 		c.Violate("C10", "cause-lost/request/"+op, fmt.Sprintf("%s: the request's error does not wrap the injected cause: %v", id, rerr), nil)
 	}
+}
+
+func runC10WrongFamily(c *fw.Ctx, id string, v refmatch.Variant) {
+	spec := defaultSpec(v, c.Worker, 1, 4)
+	spec.Target = drive.Target6(c.Worker)
+	fd0 := fdCount()
+	e := &simEnv{c: c, w: simnet.NewWire(), spec: spec, isn: 0x10000000}
+	e.w.Loopback = true
+	e.unreg = simnet.Register(e.w, spec.Target)
+	e.w.OnOpen = func(h *simnet.Handle) {
+		if e.handle == nil {
+			e.handle = h
+		}
+	}
+	e.w.OnEmit = func(h *simnet.Handle, em *simnet.Emission) {}
+	res := drive.Run(spec)
+	synctest.Wait()
+	life, leaked := e.w.Lifecycle(), repoGoroutines()
+	e.w.Lock()
+	opened := len(e.w.Handles)
+	e.w.Unlock()
+	e.close()
+	fdDiff := fdCount() - fd0
+	tag := fmt.Sprintf("%s target=%s", id, spec.Target)
+	if res.Err == nil {
+		// not claimed either way by C10 (C19 owns "honoured or rejected"); only the closing discipline is judged
+		c.Count("unsupported_family_accepted", 1)
+	} else if res.Run != nil {
+		c.Violate("C10", "result-and-error/"+v.Name+"/unsupported-family", tag+": both a result and an error", nil)
+	}
+	if len(life) > 0 {
+		c.Violate("C10", "lifecycle/"+v.Name+"/unsupported-family", fmt.Sprintf("%s: %v (error: %v)", tag, life, res.Err), nil)
+	}
+	if len(leaked) > 0 {
+		c.Violate("C10", "goroutine-leak/"+v.Name+"/unsupported-family", fmt.Sprintf("%s: %d repository goroutine(s) alive after return", tag, len(leaked)), leaked)
+	}
+	if fdDiff != 0 {
+		c.Violate("C10", "fd-leak/"+v.Name+"/unsupported-family", fmt.Sprintf("%s: open file descriptors changed by %+d", tag, fdDiff), nil)
+	}
+	if opened > 0 {
+		c.Nontrivial(v.Name + "/unsupported-family/handles-opened")
+	} else {
+		c.Nontrivial(v.Name + "/unsupported-family/refused-before-open")
+	}
+	c.Count("runs", 1)
 }
 
 func runC10CancelCase(c *fw.Ctx, id string, v refmatch.Variant, thorough bool) {
